@@ -35,11 +35,21 @@ pub trait CellIntegral: Sized + Send {
 
 /// Trait to implement new integrators that use external data in their
 /// calculation.
-pub trait CellIntegralWithData: CellIntegral {
+///
+/// Every [`CellIntegral`] is a [`CellIntegralWithData`] with `Data = ()`. Integrators that do need
+/// data implement this trait directly (and not [`CellIntegral`]).
+pub trait CellIntegralWithData: Sized + Send {
     type Data: Copy;
 
     /// Initialize a [`CellIntegral`] with some extra data.
     fn init_with_data<M: ConvexCellMarker>(cell: &ConvexCell<M>, data: Self::Data) -> Self;
+
+    /// Update the state of the integrator using one oriented tetrahedron (with
+    /// the cell's generator `gen` as top), which is part of a cell.
+    fn collect_with_data(&mut self, v0: DVec3, v1: DVec3, v2: DVec3, gen: DVec3);
+
+    /// Finalize the calculation and return the result
+    fn finalize_with_data(self) -> Self;
 }
 
 impl<T: CellIntegral> CellIntegralWithData for T {
@@ -47,6 +57,14 @@ impl<T: CellIntegral> CellIntegralWithData for T {
 
     fn init_with_data<M: ConvexCellMarker>(cell: &ConvexCell<M>, _data: ()) -> Self {
         T::init(cell)
+    }
+
+    fn collect_with_data(&mut self, v0: DVec3, v1: DVec3, v2: DVec3, gen: DVec3) {
+        self.collect(v0, v1, v2, gen)
+    }
+
+    fn finalize_with_data(self) -> Self {
+        self.finalize()
     }
 }
 
@@ -173,7 +191,10 @@ pub trait FaceIntegral: Clone + Send {
 /// Trait to implement new integrators that use external data in their
 /// calculation.
 /// The data is the cloned for all faces of a [`ConvexCell`].
-pub trait FaceIntegralWithData: FaceIntegral {
+///
+/// Every [`FaceIntegral`] is a [`FaceIntegralWithData`] with `Data = ()`. Integrators that do need
+/// data implement this trait directly (and not [`FaceIntegral`]).
+pub trait FaceIntegralWithData: Clone + Send {
     type Data: Copy;
 
     /// Initialize a [`CellIntegral`] with some extra data.
@@ -182,6 +203,13 @@ pub trait FaceIntegralWithData: FaceIntegral {
         clipping_plane_idx: usize,
         data: Self::Data,
     ) -> Self;
+
+    /// Update the state of the integrator using one oriented tetrahedron (with
+    /// the cell's generator `gen` as top), which is part of a cell.
+    fn collect_with_data(&mut self, v0: DVec3, v1: DVec3, v2: DVec3, gen: DVec3);
+
+    /// Finalize the calculation and return the result
+    fn finalize_with_data(self) -> Self;
 }
 
 impl<T: FaceIntegral> FaceIntegralWithData for T {
@@ -193,6 +221,14 @@ impl<T: FaceIntegral> FaceIntegralWithData for T {
         _data: (),
     ) -> Self {
         T::init(cell, clipping_plane_idx)
+    }
+
+    fn collect_with_data(&mut self, v0: DVec3, v1: DVec3, v2: DVec3, gen: DVec3) {
+        self.collect(v0, v1, v2, gen)
+    }
+
+    fn finalize_with_data(self) -> Self {
+        self.finalize()
     }
 }
 
@@ -227,11 +263,11 @@ impl<D: Copy, I: FaceIntegralWithData<Data = D>> FaceIntegrator<I> {
     }
 
     pub(crate) fn collect(&mut self, v0: DVec3, v1: DVec3, v2: DVec3, gen: DVec3) {
-        self.integral.collect(v0, v1, v2, gen);
+        self.integral.collect_with_data(v0, v1, v2, gen);
     }
 
     pub(crate) fn finalize(mut self) -> Self {
-        self.integral = self.integral.finalize();
+        self.integral = self.integral.finalize_with_data();
         self
     }
 
